@@ -40,10 +40,15 @@ def gen_case(rng, idx):
             pkg, sym = rng.choice(known)
             return "S:" + ".".join(pkg + [sym])
         if r < 0.95 and known:
-            return "W:" + ".".join(rng.choice(known)[0])
+            return "W:" + ".".join(rng.choice([k for k in known if k[0]] or [(["a"], "")])[0])
         if r < 0.975:
             return "W:" + ".".join(rng.choice(PKGS))
         return "S:" + ".".join(rng.choice(PKGS) + [rng.choice(["Missing", "C"])])
+    # a module of the default package that happens to be called bloch: 'import bloch;' is not a bloch.* import
+    if rng.random() < 0.15:
+        for root in rng.sample(["proj", "proj/a", "lib1", "lib2", "work"], rng.randint(1, 3)):
+            placed.append(add(root, [], "bloch"))
+        known.append(([], "bloch"))
     for p in placed:
         files[p]["imports"] = [rand_import() for _ in range(rng.choice([0, 0, 0, 1, 1, 2]))]
     entry_dir = rng.choice(["proj", "proj/a", "work"])
@@ -67,15 +72,35 @@ def write_tree(root, case):
         full = os.path.join(root, p)
         os.makedirs(os.path.dirname(full), exist_ok=True)
         lines = []
-        if f["pkg"]:
+        if f["pkg"] and not f.get("late_package"):
             lines.append("package %s;" % ".".join(f["pkg"]))
         for i in f["imports"]:
             kind, q = i.split(":")
             lines.append("import %s%s;" % (q, ".*" if kind == "W" else ""))
+        if f["pkg"] and f.get("late_package"):
+            lines.append("package %s;" % ".".join(f["pkg"]))
         lines.append("function f%d() -> void { }" % f["id"])
         for _ in range(f["mains"]):
             lines.append("function main() -> void { }")
         open(full, "w").write("\n".join(lines) + "\n")
+    # entries that are not modules: the loader must look past them (they are not part of the modelled file system)
+    for d, kind in case.get("noise", []):
+        full = os.path.join(root, d)
+        os.makedirs(full, exist_ok=True)
+        if kind == "dangling":
+            for name in (".#C.bloch", "0lock", "Zz.bloch", "m"):
+                if not os.path.lexists(os.path.join(full, name)):
+                    os.symlink("nowhere/at/all", os.path.join(full, name))
+        elif kind == "text":
+            open(os.path.join(full, "notes.txt"), "w").write("import a.C;\n")
+            open(os.path.join(full, "C.bloch.bak"), "w").write("function main() -> void { }\n")
+        elif kind == "dir":
+            os.makedirs(os.path.join(full, "Sub.bloch"), exist_ok=True)
+
+def add_noise(rng, case):
+    dirs = sorted({os.path.dirname(p) for p in case["files"]})
+    case["noise"] = [(d, rng.choice(["dangling", "dangling", "text", "dir"])) for d in dirs if rng.random() < 0.5]
+    return case
 
 def model_line(case):
     fs = " ".join("%s@%s@%d@%s" % (p, ".".join(f["pkg"]) or "-", f["mains"], ",".join(f["imports"]) or "-") for p, f in sorted(case["files"].items()))
@@ -95,8 +120,12 @@ def run(chk):
     dis = 0
     try:
         cases = [gen_case(rng, i) for i in range(n)]
+        cases = [add_noise(rng, c) if i % 3 == 0 else c for i, c in enumerate(cases)]
         cases += fixed_cases()
         cases += dual_route_cases(rng, 40 if quick else 600)
+        late = late_package_cases()
+        literal = {len(cases) + k: exp for k, (c, exp) in enumerate(late) if exp}
+        cases += [c for c, _ in late]
         with open(os.path.join(tmp, "m.txt"), "w") as fm, open(os.path.join(tmp, "c.txt"), "w") as fc:
             for i, c in enumerate(cases):
                 root = os.path.join(tmp, "t%d" % i)
@@ -110,9 +139,12 @@ def run(chk):
             raise RuntimeError("loader model failed: %s" % om[-300:])
         if len(lc) != len(cases):
             raise RuntimeError("drv_loader produced %d/%d lines" % (len(lc), len(cases)))
-        for c, m, x in zip(cases, lm, lc):
+        for k, (c, m, x) in enumerate(zip(cases, lm, lc)):
             ids = {p: f["id"] for p, f in c["files"].items()}
-            if m.startswith("ok"):
+            if k in literal:
+                expect = literal[k]
+                kinds["late package"] = kinds.get("late package", 0) + 1
+            elif m.startswith("ok"):
                 exp_funcs = []
                 for p in m.split()[1:]:
                     exp_funcs.append("f%d" % ids[p])
@@ -125,7 +157,9 @@ def run(chk):
                 expect = "err %s Semantic" % cls if cls != "open" else "err open Parse"
             if x != expect:
                 dis += 1
-                payload = {"files": {p: {"package": ".".join(f["pkg"]), "imports": f["imports"], "mains": f["mains"], "function": "f%d" % f["id"]} for p, f in c["files"].items()},
+                payload = {"files": {p: {"package": ".".join(f["pkg"]), "imports": f["imports"], "mains": f["mains"], "function": "f%d" % f["id"],
+                                         "package_line_after_imports": bool(f.get("late_package"))} for p, f in c["files"].items()},
+                           "other_directory_entries": c.get("noise", []),
                            "entry": c["entry"], "search_paths": c["search"], "cwd": c["cwd"], "expected": expect, "impl": x,
                            "how": "build the tree (each file: package line, imports, `function f<id>() -> void {}`, mains), chdir to cwd, ModuleLoader(search).load(entry)"}
                 chk.report("c19-load", payload, "loader result differs: expected `%s`, got `%s`" % (expect[:80], x[:80]))
@@ -188,4 +222,32 @@ def fixed_cases():
     out.append({"files": {"proj/Main.bloch": f([], ["S:a.C"], 1), "proj/a/C.bloch": f(["a"], [], 1)}, "entry": "proj/Main.bloch", "search": [], "cwd": "proj"})
     out.append({"files": {"proj/Main.bloch": f([], ["S:a.C"], 1), "proj/a/C.bloch": f(["a"]), "lib1/bloch/lang/Object.bloch": f(["bloch", "lang"])},
                 "entry": "proj/Main.bloch", "search": ["lib1"], "cwd": "work"})
+    # 'import bloch;' is the module bloch.bloch of the default package: importer's directory first, like any other name
+    out.append({"files": {"proj/Main.bloch": f([], ["S:bloch"], 1), "proj/bloch.bloch": f([]), "lib1/bloch.bloch": f([])},
+                "entry": "proj/Main.bloch", "search": ["lib1"], "cwd": "work"})
+    # a wildcard directory with entries that cannot be examined or are not modules
+    out.append({"files": {"proj/Main.bloch": f([], ["W:a"], 1), "proj/a/A.bloch": f(["a"]), "proj/a/C.bloch": f(["a"]), "proj/a/Z.bloch": f(["a"])},
+                "entry": "proj/Main.bloch", "search": [], "cwd": "proj", "noise": [("proj/a", "dangling"), ("proj/a", "text"), ("proj/a", "dir")]})
+    return out
+
+
+def late_package_cases():
+    """the package line written after an import: docs/grammar.md puts packageDecl first, so the file is refused (Parse) wherever it is reached"""
+    def f(pkg, imports=(), mains=0, late=False, i=[0]):
+        i[0] += 1
+        return {"pkg": pkg, "imports": list(imports), "mains": mains, "id": 3000 + i[0], "late_package": late}
+    out = []
+    out.append(({"files": {"proj/Main.bloch": f([], ["S:a.C"], 1), "proj/a/C.bloch": f(["a"], ["S:a.D"], 0, True), "proj/a/D.bloch": f(["a"])},
+                 "entry": "proj/Main.bloch", "search": [], "cwd": "proj"}, "err other Parse"))
+    out.append(({"files": {"proj/a/Main.bloch": f(["a"], ["S:a.D"], 1, True), "proj/a/D.bloch": f(["a"])},
+                 "entry": "proj/a/Main.bloch", "search": [], "cwd": "proj"}, "err other Parse"))
+    out.append(({"files": {"proj/Main.bloch": f([], ["W:a"], 1), "proj/a/C.bloch": f(["a"]), "proj/a/D.bloch": f(["a"], ["S:a.C"], 0, True)},
+                 "entry": "proj/Main.bloch", "search": [], "cwd": "proj"}, "err other Parse"))
+    # the same files with the package line first load
+    for c, _ in list(out):
+        import copy
+        g = copy.deepcopy(c)
+        for v in g["files"].values():
+            v["late_package"] = False
+        out.append((g, None))
     return out
